@@ -60,6 +60,21 @@ func genC01(r *core.Rng, id int) *Case {
 			}
 		}
 	}
+	// marshaler and unmarshaler are independently optional: make every custom-marshaled
+	// binding one-sided in half of the programs
+	for k, mu := range cfg.Marshalers {
+		switch id % 4 {
+		case 2:
+			if mu[1] != "" {
+				mu[0] = ""
+			}
+		case 3:
+			if mu[0] != "" {
+				mu[1] = ""
+			}
+		}
+		cfg.Marshalers[k] = mu
+	}
 	return &Case{ID: fmt.Sprintf("b%d", id), Schema: s, SchemaFiles: map[string]string{"schema.graphql": s.SDL()}, Defs: defs, Layout: l, Cfg: cfg}
 }
 
